@@ -47,10 +47,7 @@ Inductive presult (A : Type) : Type :=
 | PInvalid (why : Z)          (* the library raises (PyCdlibInvalidISO, or PyCdlibInvalidInput for 4) *)
 | PUnsupported (why : Z)      (* outside the modelled fragment *)
 | PFuel.
-Arguments POk {A} a.
-Arguments PInvalid {A} why.
-Arguments PUnsupported {A} why.
-Arguments PFuel {A}.
+Arguments POk {A} a. Arguments PInvalid {A} why. Arguments PUnsupported {A} why. Arguments PFuel {A}.
 
 (* a DirectoryRecord object after parse *)
 Record prec := mk_prec {
@@ -230,9 +227,9 @@ Definition ps_link : Z -> pstate -> Z -> Z -> nat * Z * pstate := ps_link_gen tr
 (* the bytes after the identifier (and its pad).  XARecord.parse: for offset in (0, len_fi rounded up to even):
    fewer than 14 bytes left -> no XA record (at once); bytes 6..7 = 'XA' -> an XA record.  Otherwise a Rock
    Ridge record is recognised by one of 15 two-byte signatures.  Either one is outside the fragment *)
-Definition ps_rr_sigs : list (Z * Z) :=
+Definition ps_rr_sigs : list (Z * Z) :=                 (* SP RR CE PX ER ES PN SL NM CL PL TF SF RE AL *)
   [(83, 80); (82, 82); (67, 69); (80, 88); (69, 82); (69, 83); (80, 78); (83, 76); (78, 77); (67, 76);
-   (80, 76); (84, 70); (83, 70); (82, 69); (65, 76)].   (* SP RR CE PX ER ES PN SL NM CL PL TF SF RE AL *)
+   (80, 76); (84, 70); (83, 70); (82, 69); (65, 76)].
 Definition ps_xa_sig (s : list Z) : bool := (nth 6 s 0 =? 88) && (nth 7 s 0 =? 65).
 Definition ps_outside (su : list Z) (len_fi : Z) : bool :=
   (if zlen su <? 14 then false
